@@ -98,6 +98,7 @@ class TileSplitter(object):
     def __init__(self, meta_tile, image_opts):
         self.meta_img = meta_tile.as_image()
         self.image_opts = image_opts
+        self.cacheable = meta_tile.cacheable
 
     def get_tile(self, crop_coord, tile_size):
         """
@@ -123,7 +124,7 @@ class TileSplitter(object):
             crop = result
         else:
             crop = self.meta_img.crop((minx, miny, maxx, maxy))
-        return ImageSource(crop, size=tile_size, image_opts=self.image_opts)
+        return ImageSource(crop, size=tile_size, image_opts=self.image_opts, cacheable=self.cacheable)
 
 
 class TiledImage(object):
